@@ -312,7 +312,7 @@ on the original host, or has >= 2 hops; distinct by decoded-choice digest.",
     }],
     randoms: &[RandomDef {
         name: "chains_3_4",
-        cases: |t: Tier| t.pick(300_000, 36_000_000),
+        cases: |t: Tier| t.pick(600_000, 36_000_000),
         tape_len: 40,
         exec: None,
     }],
